@@ -45,7 +45,7 @@ func (s *State) topicCreate(topic *t.Topic) {
 }
 
 func (a *Adapter) TopicCreate(topic *t.Topic) error {
-	a.mu.Lock()
+	a.lock()
 	defer a.mu.Unlock()
 	if err := a.enter("TopicCreate", true, topic.Id); err != nil {
 		return err
@@ -84,7 +84,7 @@ func (s *State) createSubscription(sub *t.Subscription, undelete bool) {
 }
 
 func (a *Adapter) TopicCreateP2P(initiator, invited *t.Subscription) error {
-	a.mu.Lock()
+	a.lock()
 	defer a.mu.Unlock()
 	if err := a.enter("TopicCreateP2P", true, initiator.Topic); err != nil {
 		return err
@@ -107,7 +107,7 @@ func (a *Adapter) TopicCreateP2P(initiator, invited *t.Subscription) error {
 }
 
 func (a *Adapter) TopicGet(topic string) (*t.Topic, error) {
-	a.mu.Lock()
+	a.lock()
 	defer a.mu.Unlock()
 	if err := a.enter("TopicGet", false, topic); err != nil {
 		return nil, err
@@ -119,7 +119,7 @@ func (a *Adapter) TopicGet(topic string) (*t.Topic, error) {
 }
 
 func (a *Adapter) TopicsForUser(uid t.Uid, keepDeleted bool, opts *t.QueryOpt) ([]t.Subscription, error) {
-	a.mu.Lock()
+	a.lock()
 	defer a.mu.Unlock()
 	if err := a.enter("TopicsForUser", false, uid.String()); err != nil {
 		return nil, err
@@ -245,7 +245,7 @@ func (a *Adapter) TopicsForUser(uid t.Uid, keepDeleted bool, opts *t.QueryOpt) (
 }
 
 func (a *Adapter) UsersForTopic(topic string, keepDeleted bool, opts *t.QueryOpt) ([]t.Subscription, error) {
-	a.mu.Lock()
+	a.lock()
 	defer a.mu.Unlock()
 	if err := a.enter("UsersForTopic", false, topic); err != nil {
 		return nil, err
@@ -325,7 +325,7 @@ func (a *Adapter) UsersForTopic(topic string, keepDeleted bool, opts *t.QueryOpt
 }
 
 func (a *Adapter) OwnTopics(uid t.Uid) ([]string, error) {
-	a.mu.Lock()
+	a.lock()
 	defer a.mu.Unlock()
 	if err := a.enter("OwnTopics", false, uid.String()); err != nil {
 		return nil, err
@@ -340,7 +340,7 @@ func (a *Adapter) OwnTopics(uid t.Uid) ([]string, error) {
 }
 
 func (a *Adapter) ChannelsForUser(uid t.Uid) ([]string, error) {
-	a.mu.Lock()
+	a.lock()
 	defer a.mu.Unlock()
 	if err := a.enter("ChannelsForUser", false, uid.String()); err != nil {
 		return nil, err
@@ -377,7 +377,7 @@ func (a *Adapter) TopicShare(shares []*t.Subscription) error {
 }
 
 func (a *Adapter) TopicDelete(topic string, isChan, hard bool) error {
-	a.mu.Lock()
+	a.lock()
 	defer a.mu.Unlock()
 	if err := a.enter("TopicDelete", true, topic); err != nil {
 		return err
@@ -409,7 +409,7 @@ func (a *Adapter) TopicDelete(topic string, isChan, hard bool) error {
 }
 
 func (a *Adapter) TopicUpdateOnMessage(topic string, msg *t.Message) error {
-	a.mu.Lock()
+	a.lock()
 	defer a.mu.Unlock()
 	if err := a.enter("TopicUpdateOnMessage", true, topic); err != nil {
 		return err
@@ -422,7 +422,7 @@ func (a *Adapter) TopicUpdateOnMessage(topic string, msg *t.Message) error {
 }
 
 func (a *Adapter) TopicUpdate(topic string, update map[string]any) error {
-	a.mu.Lock()
+	a.lock()
 	defer a.mu.Unlock()
 	if err := a.enter("TopicUpdate", true, topic+" "+keys(update)); err != nil {
 		return err
@@ -484,7 +484,7 @@ func (a *Adapter) TopicUpdate(topic string, update map[string]any) error {
 }
 
 func (a *Adapter) TopicOwnerChange(topic string, newOwner t.Uid) error {
-	a.mu.Lock()
+	a.lock()
 	defer a.mu.Unlock()
 	if err := a.enter("TopicOwnerChange", true, topic); err != nil {
 		return err
@@ -497,7 +497,7 @@ func (a *Adapter) TopicOwnerChange(topic string, newOwner t.Uid) error {
 }
 
 func (a *Adapter) SubscriptionGet(topic string, user t.Uid, keepDeleted bool) (*t.Subscription, error) {
-	a.mu.Lock()
+	a.lock()
 	defer a.mu.Unlock()
 	if err := a.enter("SubscriptionGet", false, topic+":"+user.String()); err != nil {
 		return nil, err
@@ -511,7 +511,7 @@ func (a *Adapter) SubscriptionGet(topic string, user t.Uid, keepDeleted bool) (*
 }
 
 func (a *Adapter) SubsForUser(forUser t.Uid) ([]t.Subscription, error) {
-	a.mu.Lock()
+	a.lock()
 	defer a.mu.Unlock()
 	if err := a.enter("SubsForUser", false, forUser.String()); err != nil {
 		return nil, err
@@ -528,7 +528,7 @@ func (a *Adapter) SubsForUser(forUser t.Uid) ([]t.Subscription, error) {
 }
 
 func (a *Adapter) SubsForTopic(topic string, keepDeleted bool, opts *t.QueryOpt) ([]t.Subscription, error) {
-	a.mu.Lock()
+	a.lock()
 	defer a.mu.Unlock()
 	if err := a.enter("SubsForTopic", false, topic); err != nil {
 		return nil, err
@@ -567,7 +567,7 @@ func asMode(v any) t.AccessMode {
 }
 
 func (a *Adapter) SubsUpdate(topic string, user t.Uid, update map[string]any) error {
-	a.mu.Lock()
+	a.lock()
 	defer a.mu.Unlock()
 	if err := a.enter("SubsUpdate", true, topic+":"+user.String()+" "+keys(update)); err != nil {
 		return err
@@ -602,7 +602,7 @@ func (a *Adapter) SubsUpdate(topic string, user t.Uid, update map[string]any) er
 }
 
 func (a *Adapter) SubsDelete(topic string, user t.Uid) error {
-	a.mu.Lock()
+	a.lock()
 	defer a.mu.Unlock()
 	if err := a.enter("SubsDelete", true, topic+":"+user.String()); err != nil {
 		return err
@@ -620,7 +620,7 @@ func (a *Adapter) SubsDelete(topic string, user t.Uid) error {
 
 // SubsDelForUser is not part of the adapter interface of this tree but some adapters export it.
 func (a *Adapter) SubsDelForUser(user t.Uid, hard bool) error {
-	a.mu.Lock()
+	a.lock()
 	defer a.mu.Unlock()
 	if err := a.enter("SubsDelForUser", true, user.String()); err != nil {
 		return err
@@ -704,7 +704,7 @@ func topN(in []scored, n int) []t.Subscription {
 }
 
 func (a *Adapter) FindUsers(uid t.Uid, req [][]string, opt []string, activeOnly bool) ([]t.Subscription, error) {
-	a.mu.Lock()
+	a.lock()
 	defer a.mu.Unlock()
 	if err := a.enter("FindUsers", false, ""); err != nil {
 		return nil, err
@@ -733,7 +733,7 @@ func (a *Adapter) FindUsers(uid t.Uid, req [][]string, opt []string, activeOnly 
 }
 
 func (a *Adapter) FindTopics(req [][]string, opt []string, activeOnly bool) ([]t.Subscription, error) {
-	a.mu.Lock()
+	a.lock()
 	defer a.mu.Unlock()
 	if err := a.enter("FindTopics", false, ""); err != nil {
 		return nil, err
